@@ -970,7 +970,11 @@ impl CrashX {
         let mut out = Outcome::default();
         out.nontrivial = true;
         // 1. reference run: which operations does the traced op perform?
-        let (ex, _pre, old, tr, _) = match self.run_traced(prop, hist, target) {
+        let lazy = case["lazy"].as_bool().unwrap_or(false);
+        self.lazy = lazy;
+        let traced = self.run_traced(prop, hist, target);
+        self.lazy = false;
+        let (ex, _pre, old, tr, _) = match traced {
             Ok(x) => x,
             Err(v) => {
                 out.violation = Some(v);
@@ -1051,6 +1055,7 @@ impl CrashX {
                         page_at: *page_at,
                         abort: false,
                     });
+                    nomt::verif::lazy::enable(lazy);
                     let r = std::panic::catch_unwind(std::panic::AssertUnwindSafe(|| {
                         let r = ex.step(target, &ops[target]);
                         if r.is_ok() {
@@ -1058,6 +1063,7 @@ impl CrashX {
                         }
                         r
                     }));
+                    nomt::verif::lazy::enable(false);
                     let (events, fired) = vio::disable();
                     let ftr = Trace::new(events);
                     if fired == 0 {
